@@ -44,6 +44,7 @@ type Scenario struct {
 	ByteReader bool          `json:"byte_reader,omitempty"`
 	Faults     []simfs.Fault `json:"faults,omitempty"`
 	ShortRead  int           `json:"short_read,omitempty"`
+	Sweep      bool          `json:"sweep,omitempty"` // instead of the listed faults: a read error at every octet of every file, one parse each
 	Planted    *Planted      `json:"planted,omitempty"`
 }
 
@@ -219,6 +220,9 @@ func Gen(seed uint64, tier string) any {
 			f.Lines = append(f.Lines[:at], append([]string{plantedLine}, f.Lines[at:]...)...)
 			sc.Planted = &Planted{File: f.Name, Line: at + 1}
 		}
+	}
+	if sc.Kind == "zone" && core.Chance(r, 3) {
+		sc.Sweep = true
 	}
 	// faults
 	if core.Chance(r, 65) && len(sc.Files) > 0 {
@@ -680,11 +684,43 @@ func runZone(sc *Scenario, res *core.Result, logf func(string, ...any)) {
 		res.Bump("oracle.P5_include_gate")
 	}
 	// the same tree under faults
-	if len(sc.Faults) == 0 && sc.ShortRead == 0 {
+	if len(sc.Faults) == 0 && sc.ShortRead == 0 && !sc.Sweep {
 		res.Nontrivial = len(ref.recs) > 0 || ref.err != ""
 		res.Class = fmt.Sprintf("zone/nofault/%s/inc=%v/br=%v", errClass(ref.err), sc.Include, sc.ByteReader)
 		return
 	}
+	if sc.Sweep {
+		// a read error at every octet of every file of this (small) tree
+		total := 0
+		for _, f := range sc.Files {
+			total += len(f.Text())
+		}
+		if total <= 600 {
+			res.Bump("fault.exhaustive_sweep")
+			for _, f := range sc.Files {
+				for at := 0; at <= len(f.Text()); at++ {
+					c := *sc
+					c.Faults = []simfs.Fault{{File: f.Name, Kind: "readerr", At: at}}
+					c.ShortRead = 0
+					faultyRun(&c, res, ref, func(string, ...any) {})
+					if res.Verdict != core.OK {
+						res.Msg = fmt.Sprintf("[read error at octet %d of %s] %s", at, f.Name, res.Msg)
+						return
+					}
+					res.Bump("oracle.P4_sweep_positions")
+				}
+			}
+			res.Nontrivial = true
+			res.Class = fmt.Sprintf("zone/sweep/ref=%s/inc=%v/br=%v", errClass(ref.err), sc.Include, sc.ByteReader)
+			return
+		}
+	}
+	faultyRun(sc, res, ref, logf)
+}
+
+// faultyRun parses the tree under sc's faults and judges it against the
+// fault-free parse ref.
+func faultyRun(sc *Scenario, res *core.Result, ref *outcome, logf func(string, ...any)) {
 	run, ok := guarded(limit, func() *outcome { return parse(sc, sc.Faults, sc.ShortRead) })
 	if !ok {
 		hang(res, "parsing the tree under injected faults")
